@@ -240,13 +240,8 @@ pub async fn run(cx: &mut Ctx) {
                 let i = rng.usize(op_plan.len());
                 op_plan.swap_remove(i);
             }
-            // I/O errors on the manifest's write/fsync are a known finding: kept to a small
-            // share of the runs so that the rest of the fault space keeps being explored
-            if cx.case.param("avoid", 1) == 1 {
-                calls.retain(|(c, p, _)| {
-                    !(p.contains("manifest") && matches!(c, Class::Sync | Class::Write))
-                });
-            }
+            // (I/O errors on the manifest's write/fsync used to be a known finding and were kept
+            // to a small share of the runs; repaired by 5d480e7, now part of every run)
             for _ in 0..max_io.min(calls.len() * 2) {
                 let (class, path, nth) = calls[rng.usize(calls.len())].clone();
                 io_plan.push(IoFaultSpec {
@@ -265,7 +260,7 @@ pub async fn run(cx: &mut Ctx) {
                 });
             }
             // disk full from some point of a writing statement on
-            if target.is_some() && calls1 > calls0 && cx.case.param("avoid", 1) == 1 {
+            if target.is_some() && calls1 > calls0 {
                 for _ in 0..2 {
                     io_plan.push(IoFaultSpec {
                         step: ti,
